@@ -389,6 +389,19 @@ def model_pass(case):
         rk = None
         if k == "load_models":
             st[op["p"]]["regs"] = st[op["p"]]["regs"] + list(op["models"])
+        elif k == "parse" and op.get("wfilter") == "error":
+            # a re-parse in a process that turns warnings into errors: the shipped code refuses it with the re-parse warning before
+            # touching anything; whatever an implementation does, the instance must afterwards answer like a fresh instance parsed
+            # with the old switch or with the new one
+            s = st[op["p"]]
+            if s["cc"] is None:
+                rk = None  # only meaningful on an already parsed instance
+            else:
+                old_rk = want(op["p"], {"q": "__snapshot__"})
+                s["regs_at_parse"], s["cc"] = list(s["regs"]), bool(op["cc"])
+                new_rk = want(op["p"], {"q": "__snapshot__"})
+                # (the attempt is followed by an ordinary complete parse with the new switch, so the model continues from there)
+                rk = {"strict_reparse": [old_rk, new_rk]}
         elif k == "parse":
             s = st[op["p"]]
             s["regs_at_parse"], s["cc"], s["gl"] = list(s["regs"]), bool(op["cc"]), True
@@ -457,7 +470,7 @@ def run_session(case: dict) -> dict:
     hashes: dict = {}
     try:
         for d in deliveries:
-            insts.append(construct(d))
+            insts.append(construct(d, keep=True))  # every instance's files stay on the simulated disk for the whole session
 
         def compare(i, op, rk, got, cats, where):
             ref = tables[rk][qkey(op)]
@@ -513,6 +526,26 @@ def run_session(case: dict) -> dict:
             if k == "load_models":
                 insts[op["p"]].load_additional_decay_models(*op["models"])
                 abstract.append((op["p"], k, "ok"))
+            elif k == "parse" and op.get("wfilter") == "error":
+                if rk is None:
+                    abstract.append((op["p"], "strict_reparse", "skipped"))
+                    continue
+                i = op["p"]
+                with warnings.catch_warnings():
+                    warnings.simplefilter("error")
+                    try:
+                        insts[i].parse(include_ccdecays=bool(op["cc"]))
+                        res = "returned"
+                    except Exception as e:
+                        res = type(e).__name__
+                stats["strict_reparse_attempts"] = stats.get("strict_reparse_attempts", 0) + 1
+                got = snapshot(insts[i])
+                diffs = [first_difference(tables[r][qkey({"q": "__snapshot__"})]["snap"], got) for r in rk["strict_reparse"]]
+                if all(d is not None for d in diffs):
+                    raise Violation("refused_reparse_leaves_instance_intact",
+                                    {"instance": i, "where": f"step {step}", "attempt": res, "vs_old_switch": diffs[0], "vs_new_switch": diffs[1]})
+                do_parse(i, bool(op["cc"]), rk["strict_reparse"][1], f"step {step} (after refused re-parse)")
+                abstract.append((i, "strict_reparse", res))
             elif k == "parse":
                 if hashes.get(op["p"]) is not None:
                     stats["reparse"] += 1
@@ -771,7 +804,10 @@ def gen_session(rng: random.Random, cfg: dict | None = None) -> dict:
         elif k == "checkpoint":
             ops.append({"op": "checkpoint", "p": i})
         elif k == "reparse":
-            ops.append({"op": "parse", "p": i, "cc": rng.random() < 0.7})
+            if rng.random() < 0.25:
+                ops.append({"op": "parse", "p": i, "cc": rng.random() < 0.7, "wfilter": "error"})  # process with warnings turned into errors
+            else:
+                ops.append({"op": "parse", "p": i, "cc": rng.random() < 0.7})
         elif k == "late_models":
             ops.append({"op": "load_models", "p": i, "models": [rng.choice(CUSTOM_MODELS + ["LATE_MODEL"])]})
     return {"docs": docs, "instances": instances, "ops": ops, "cross_fraction": cfg.get("cross_fraction", 0.1)}
